@@ -434,9 +434,22 @@ def run_builtins(rec):
         cases.append(("<builtin>transpose", [a, cols]))
         cases.append(("<builtin>matmul", [a, a, cols, cols]))
         cases.append(("<builtin>svd", [a, cols]))
-    m = ("matrix", np.array([2.0, 1.0, 1.0, 3.0]), grid[5][2])
-    cases.append(("<builtin>linear_solve", [m, ("rhs", np.array([1.0, 2.0]), grid[5][2]),
-                                            ("cols", 2, grid[0][2]), ("cols", 1, grid[0][2])]))
+    from dagrt.data import Array
+    # matrix built-ins over every real/complex combination of their array arguments
+    mats = [("real-matrix-2x2", np.array([2.0, 1.0, 1.0, 3.0]), Array(True)),
+            ("complex-matrix-2x2", np.array([2.0, 1j, 1.0, 3.0 - 1j]), Array(False))]
+    rhss = [("real-rhs-2", np.array([1.0, 2.0]), Array(True)), ("complex-rhs-2", np.array([1.0, 2j]), Array(False)),
+            ("real-rhs-2x2", np.array([1.0, 2.0, 0.5, -1.0]), Array(True)),
+            ("complex-rhs-2x2", np.array([1.0, 2.0, 0.5j, -1.0]), Array(False))]
+    two, onec = ("cols", 2, grid[0][2]), ("cols", 1, grid[0][2])
+    for m in mats:
+        for b in rhss:
+            cases.append(("<builtin>linear_solve", [m, b, two, two if b[0].endswith("2x2") else onec]))
+        for m2 in mats:
+            cases.append(("<builtin>matmul", [m, m2, two, two]))
+        if m[0].startswith("complex"):
+            cases.append(("<builtin>transpose", [m, two]))
+            cases.append(("<builtin>svd", [m, two]))
     for fname, args in cases:
         func = freg[fname]
         kinds = {i: a[2] for i, a in enumerate(args)}
